@@ -50,6 +50,7 @@ def stepA (a : Ag) (line : String) : Ag × String :=
     (a', render a' outs)
   | ["sleep"] => let a' := a.sleep; (a', render a' [])
   | ["wake"] => (a, render a [])
+  | ["route", _, "via", _] => (a, render a [])   -- responses travel hop by hop via forwardedControl: routes play no part
   | ["conn", p] =>
     let a' := { a with peers := p.toNat! :: a.peers.filter (· != p.toNat!) }
     (a', render a' [])
@@ -169,7 +170,12 @@ def specStep (s : SpecSt) (l : String) : SpecSt × String :=
           match r.origin with
           | none => if r.abandoned then [] else [s!"deliver:{i}:{ok}:{tag}"]   -- the caller of THIS request instance
           | some q => if s.peers.contains q then [s!"{q}:resp:{i}:{ok}:{tag}"] else []
-        if items == want then (s', "ok")
+        -- a response frame handed to a peer that neither issued nor relayed the request
+        let uninvolved := items.any (fun it => match it.splitOn ":" with
+          | [q, "resp", _, _, _] => !(s.live.any (fun x => x.id == i && x.origin == some q.toNat!))
+          | _ => false)
+        if uninvolved then (s', "fail c39-response-to-uninvolved")
+        else if items == want then (s', "ok")
         else if items.isEmpty then (s', "fail " ++ ftag s "dropped")
         else (s', "fail " ++ ftag s "misdelivered")
     | _ => (s, "ok")
